@@ -87,8 +87,15 @@ static vm_report last_vm;
         ok_;                                                                                                       \
     })
 
+/* input placement: pass 0 puts every typed input flush against the guard page (an over-read faults), which ties the
+ * start address's alignment to the length; the further passes move the start back by g_in_shift elements so that
+ * every length also meets the other alignment classes (mod 8 for 32-bit, mod 16/32 for 64-bit elements) */
+static size_t g_in_shift = 0;
+static uint8_t *in_get(size_t nbytes, size_t elem) {
+    return vh_gb_get(G_IN, nbytes + g_in_shift * elem, -1);
+}
 static uint64_t *in_vals(const uint64_t *v, size_t n) {
-    uint64_t *p = (uint64_t *)vh_gb_get(G_IN, n * 8, -1);
+    uint64_t *p = (uint64_t *)in_get(n * 8, 8);
     memcpy(p, v, n * 8);
     return p;
 }
@@ -894,7 +901,7 @@ static void codec_bp128(const uint64_t *vals, size_t n) {
             }
         }
         int b64 = mx64 ? 64 - __builtin_clzll(mx64) : 0, b32 = mx32 ? 32 - __builtin_clz(mx32) : 0;
-        uint32_t *in32h = (uint32_t *)vh_gb_get(G_IN, n * 4, -1);
+        uint32_t *in32h = (uint32_t *)in_get(n * 4, 4);
         memcpy(in32h, v32, n * 4);
         int g32 = -1, s32r = -1;
         if (LIBCALL("BP128.MaxBitWidth32/IsSorted32", "helpers", (g32 = varintBP128MaxBitWidth32(in32h, n), s32r = varintBP128IsSorted32(in32h, n)))) {
@@ -912,7 +919,7 @@ static void codec_bp128(const uint64_t *vals, size_t n) {
     }
     for (int delta = 0; delta < 2; delta++) {
         const uint32_t *src = delta ? s32 : v32;
-        uint32_t *in32 = (uint32_t *)vh_gb_get(G_IN, n * 4, -1);
+        uint32_t *in32 = (uint32_t *)in_get(n * 4, 4);
         memcpy(in32, src, n * 4);
         const char *eapi = delta ? "BP128.DeltaEncode32" : "BP128.Encode32";
         const char *dapi = delta ? "BP128.DeltaDecode32" : "BP128.Decode32";
@@ -966,7 +973,7 @@ static void codec_bp128(const uint64_t *vals, size_t n) {
     /* block functions on every complete 128-chunk */
     if (M02 && n >= 128) {
         for (size_t b = 0; b + 128 <= n && b < 4224; b += 128) {
-            uint32_t *in32 = (uint32_t *)vh_gb_get(G_IN, 128 * 4, -1);
+            uint32_t *in32 = (uint32_t *)in_get(128 * 4, 4);
             memcpy(in32, v32 + b, 128 * 4);
             uint8_t *dst = vh_gb_get(G_DST, 1 + 128 * 4, 0xEE);
             size_t wrote = 0, rd = 0;
@@ -1331,9 +1338,20 @@ int main(int argc, char **argv) {
                 complete = 0;
                 break;
             }
-            memcpy(copy, it.v, it.n * 8);
-            cur_desc = it.desc;
-            run_array(copy, it.n);
+            static const size_t SHIFTS[3] = {0, 1, 3};
+            int npass = M13 || it.n > (vh_thorough ? 4097 : 600) ? 1 : (vh_thorough ? 3 : 2);
+            for (int pass = 0; pass < npass; pass++) {
+                char dsc[260];
+                g_in_shift = SHIFTS[pass];
+                memcpy(copy, it.v, it.n * 8);
+                if (pass) {
+                    snprintf(dsc, sizeof dsc, "%s [input start %zu element(s) before the flush position]", it.desc, g_in_shift);
+                }
+                cur_desc = pass ? dsc : it.desc;
+                run_array(copy, it.n);
+                vh_count("input_placements", 1);
+            }
+            g_in_shift = 0;
             vh_count("cases", 1);
             vh_count("elements", it.n);
             char fk[40];
